@@ -112,6 +112,32 @@ def late_removal(tree):
     return bool(hits)
 
 
+def equal_model_product(tree):
+    """Known-finding class C02-equal-models-product: a '*' whose operands are sums with the same set of terms
+    (Model.__mul__ returns self when self == other, so the cross interactions are missing)."""
+    from formulae.expr import Binary, Grouping, Unary
+    from ..rtc.algebra import ev as spec_ev, OutOfLanguage
+    hit = []
+
+    def walk(e):
+        if isinstance(e, Grouping):
+            walk(e.expression)
+        elif isinstance(e, Unary):
+            walk(e.right)
+        elif isinstance(e, Binary):
+            if e.operator.kind == "STAR":
+                try:
+                    a, b = spec_ev(e.left)[0], spec_ev(e.right)[0]
+                    if len(a) >= 2 and set(a) == set(b):
+                        hit.append(e)
+                except OutOfLanguage:
+                    pass
+            walk(e.left)
+            walk(e.right)
+    walk(tree)
+    return bool(hit)
+
+
 def _chunk(forms):
     from ..rtc.algebra import expand, observed, OutOfLanguage
     from formulae.scanner import Scanner
@@ -120,6 +146,7 @@ def _chunk(forms):
     evals = nontriv = 0
     bad = []
     known = 0
+    known2 = 0
     for f in forms:
         try:
             tree = Parser(Scanner(f).scan(False)).parse()
@@ -141,8 +168,12 @@ def _chunk(forms):
                     and all(n.startswith("1|") for n in obs[2] - spec[2])):
                 known += 1
                 continue
+            if (equal_model_product(tree) and obs[0] == spec[0] and obs[2] == spec[2] and obs[1] <= spec[1]
+                    and all(":" in n for n in spec[1] - obs[1])):
+                known2 += 1
+                continue
             bad.append((f, "expansion differs from the set-semantics specification", str(spec), str(obs)))
-    return evals, nontriv, bad[:20], known
+    return evals, nontriv, bad[:20], known, known2
 
 
 def run(report, findings):
@@ -154,6 +185,12 @@ def run(report, findings):
     nontriv = sum(r[1] for r in res)
     known = sum(r[3] for r in res)
     fk = {f["id"]: f for f in findings if f.get("kind") == "finding"}
+    known2 = sum(r[4] for r in res)
+    if known2:
+        if "C02-equal-models-product" in fk:
+            report.known_hits["C02-equal-models-product"] = known2
+        else:
+            report.violation("(A) * (B) with equal term sets returns A without the cross interactions", {"count": known2})
     if known:
         if "C02-late-intercept-removal" in fk:
             report.known_hits["C02-late-intercept-removal"] = known
@@ -177,6 +214,6 @@ def run(report, findings):
         "oracle": "vf/rtc/algebra.py expand(): executable set-semantics specification over the parser AST; term identity is "
                   "the ordered duplicate-free factor list (a:b and b:a are different terms, as in formulae)",
     })
-    report.assumptions = ["scanner and parser are trusted to deliver the AST (C01)",
+    report.assumptions = list(dict.fromkeys(list(report.assumptions) + ["scanner and parser are trusted to deliver the AST (C01)",
                           "formulas outside the documented language (parenthesised intercept literals, '- 0', "
-                          "group terms as operands of : * / **) are skipped, not judged"]
+                          "group terms as operands of : * / **) are skipped, not judged"]))
